@@ -104,6 +104,7 @@ type c02case struct {
 	Flags  []string `json:"flags"`
 	Level  int      `json:"logger_level"`
 	Dest   int      `json:"dest_set"`
+	VS     bool     `json:"value_stringer,omitempty"` // the logger has a ValueStringer that writes to whatever device it is handed through SetWriter
 	Prior  bool     `json:"prior_record,omitempty"` // another logger formatted a colored multi-line record (trailing newline, error value) just before
 }
 
@@ -195,7 +196,7 @@ func c02eval(cas c02case) *Violation {
 		fl |= c02flagNames[f]
 	}
 	mkViol := func(clause, detail string) *Violation {
-		sig := fmt.Sprintf("C02|%s|entry=%s|msg=%s|args=%s|format=%s|prior=%v", clause, cas.Entry, cas.MsgQ, strings.Join(cas.Args, ","), cas.Format, cas.Prior)
+		sig := fmt.Sprintf("C02|%s|entry=%s|msg=%s|args=%s|format=%s|prior=%v%s", clause, cas.Entry, cas.MsgQ, strings.Join(cas.Args, ","), cas.Format, cas.Prior, map[bool]string{true: "|value-stringer"}[cas.VS])
 		return mkViolation(sig, clause, detail+fmt.Sprintf(" [logger level %s, flags %v, destinations %s]", levelName(slog.Level(cas.Level)), cas.Flags, c02dests[cas.Dest]), cas)
 	}
 	run := func(dest int) (rec *recorder, pan string, normal, errw []string, leveled map[slog.Level][]string) {
@@ -212,6 +213,9 @@ func c02eval(cas c02case) *Violation {
 			l = slog.VerifEntryOf(slog.New("lg"))
 		}
 		normal, errw, leveled = c02configure(l, rec, dest)
+		if cas.VS {
+			l.SetValueStringer(&c02vs{})
+		}
 		// SetLevel(Debug/Trace) flips the process-wide debug mode; keep it off
 		l.SetLevel(slog.Level(cas.Level))
 		c01restoreModes()
@@ -329,6 +333,16 @@ var ptrRe = regexp.MustCompile(`0x[0-9a-f]{6,16}`)
 // (they legitimately differ between two runs of the same call).
 func normPtr(s string) string { return ptrRe.ReplaceAllString(s, "0xPTR") }
 
+// c02vs is a value stringer that prints the value to the device it was handed (the interface has a SetWriter method).
+type c02vs struct{ w io.Writer }
+
+func (v *c02vs) SetWriter(w io.Writer) { v.w = w }
+func (v *c02vs) WriteValue(val any) {
+	if v.w != nil {
+		fmt.Fprintf(v.w, "%v", val)
+	}
+}
+
 func c01restoreModes() {
 	slog.VerifRestoreModes(false, false)
 }
@@ -404,6 +418,14 @@ func c02cases(thorough bool, emit func(c02case)) {
 						}
 					}
 				}
+			}
+		}
+	}
+	// B3: a logger with a value stringer (given after the writers)
+	for _, e := range ents {
+		for _, f := range formats {
+			for d := 0; d < 3; d++ {
+				emit(c02case{Layer: "B3-value-stringer", Entry: e.name, MsgQ: qk("m"), Args: []string{`"k"`, "1", `"s"`, `"k"`}, Format: f, Level: int(slog.TraceLevel), Dest: d, VS: true})
 			}
 		}
 	}
